@@ -116,6 +116,8 @@ func (pq *pqList) Expire(now time.Time) []interface{} {
 			return out
 		}
 		expired := heap.Pop(&pq.pq).(*bucket)
+		// forget the bucket, or a later insert for the same second lands in a bucket that is no longer swept
+		delete(pq.buckets, expired.deadline)
 		for _, v := range expired.data {
 			out = append(out, v.value)
 		}
